@@ -78,6 +78,14 @@ fn scenarios(thorough: bool) -> Vec<Scn> {
             }
         }
     }
+    // packets that name source blocks far ahead inside a huge announced partitioning (in-band FTI, no FDT)
+    for &fec in &[0u8, 5, 129] {
+        for &cache in &[Some(1024usize), Some(64 << 10)] {
+            for &scale in &scales {
+                v.push(Scn { session_alive: false, kind: "far_sbn_in_partition", cache, max_err: 16, timeout_ms: Some(5), scale, fec });
+            }
+        }
+    }
     // stalled objects while unrelated traffic (new FDT instances, new objects) keeps the session busy
     for &scale in &scales {
         for &max_err in &[0usize, 16] {
@@ -225,6 +233,50 @@ fn child(args: &[String]) -> ! {
                     if sbn == nb / 10 || sbn + 1 == nb {
                         live_marks.push((pushes, alloc::live() - baseline));
                     }
+                }
+            }
+            // in-band FTI announces a partitioning in 2^16 (No-Code) or 2^24 blocks of one 16-byte symbol; no FDT.
+            // A few packets name blocks close to the first one, the others name blocks far ahead - all of them
+            // inside the announced partitioning. What the receiver holds per object must not follow the SBN.
+            "far_sbn_in_partition" => {
+                let fec = s.fec;
+                let e = 16usize;
+                let nblocks: u64 = if fec == 0 { 65_536 } else { 1 << 24 };
+                let far: u32 = if fec == 0 { 60_000 } else { 1_000_000 * s.scale.min(4) as u32 };
+                let fti = Fti { fec, l: nblocks * e as u64, e: e as u16, b: 1, max_n: Some(2), instance: Some(0), z: None, n: None, al: None, m: None, g: None };
+                let ntoi = 4 * s.scale;
+                let sym = rng.bytes(e);
+                let mut accepted = 0u64;
+                for t in 0..ntoi {
+                    for sbn in [100u32, 2000, 4000] {
+                        let pk = obj_pkt(1, 500 + t as u128, fec, Some(&fti), sbn, 0, 1, &sym, false);
+                        if rx.push(&ep, &pk, now).is_ok() {
+                            accepted += 1;
+                        }
+                        pushes += 1;
+                    }
+                }
+                observe(&rx, &mut p);
+                let held_near: usize = rx.verif_stats().iter().map(|x| x.objects.len()).sum();
+                live_marks.push((pushes, alloc::live() - baseline));
+                for t in 0..ntoi {
+                    for j in 0..6u32 {
+                        let pk = obj_pkt(1, 500 + t as u128, fec, Some(&fti), far + j * 1000, 0, 1, &sym, false);
+                        let _ = rx.push(&ep, &pk, now);
+                        pushes += 1;
+                    }
+                }
+                observe(&rx, &mut p);
+                let live = alloc::live() - baseline;
+                live_marks.push((pushes, live));
+                // per object: the cache / unwritten blocks bound plus half a MiB for everything else (the block window
+                // of an object that stays inside the 4096 block limit was measured at 128-256 KiB)
+                let allowed = (ntoi * (cache + 2 * e + (512 << 10))) as isize;
+                if accepted == 0 || held_near == 0 {
+                    add("scenario_vacuous", format!("no packet of the {} objects was accepted ({} objects held)", ntoi, held_near), json!(null));
+                } else if live > allowed {
+                    add("heap_follows_sbn", format!("{} bytes live after {} packets of 16 bytes for {} objects naming source blocks up to {} of {} announced (allowed {} = objects x (cache {} + 2 symbols + 512 KiB)): memory follows the block numbers in the traffic, not the configuration",
+                        live, pushes, ntoi, far + 5000, nblocks, allowed, cache), json!({"marks": live_marks.clone(), "fec": fec}));
                 }
             }
             // many FDT instance ids, each missing its last packet
